@@ -458,9 +458,38 @@ def limit_memory():
     import resource
 
     soft, hard = resource.getrlimit(resource.RLIMIT_AS)
-    if soft == resource.RLIM_INFINITY or soft > MEMORY_LIMIT_BYTES:
-        resource.setrlimit(resource.RLIMIT_AS, (MEMORY_LIMIT_BYTES, hard))
+    # relative to what the worker has mapped already: after an earlier check has run into the limit the allocator may
+    # not have given everything back (debug allocators of `-X dev` never do), and an absolute limit would then make
+    # every later, innocent check fail with MemoryError
+    limit = max(MEMORY_LIMIT_BYTES, _mapped_bytes() + MEMORY_HEADROOM_BYTES)
+    if hard != resource.RLIM_INFINITY:
+        limit = min(limit, hard)
+    if soft == resource.RLIM_INFINITY or soft > limit:
+        resource.setrlimit(resource.RLIMIT_AS, (limit, hard))
     return soft, hard
+
+
+MEMORY_HEADROOM_BYTES = 3 << 29  # 1.5 GiB above what is mapped when a check starts
+
+
+def _mapped_bytes() -> int:
+    try:
+        with open("/proc/self/statm") as f:
+            return int(f.read().split()[0]) * os.sysconf("SC_PAGE_SIZE")
+    except Exception:  # noqa: BLE001
+        return 0
+
+
+def _give_memory_back() -> None:
+    """after a check that grew the worker a lot: collect and ask glibc to return free heap pages to the system"""
+    import ctypes
+    import gc
+
+    gc.collect()
+    try:
+        ctypes.CDLL("libc.so.6").malloc_trim(0)
+    except Exception:  # noqa: BLE001
+        pass
 
 
 def unlimit_memory(previous) -> None:
@@ -516,6 +545,8 @@ def observe(source: str, config: str, fresh: bool = False):
         key, fileline = escaped_key(res.exception)
         found.append((key, f"[{config}] exception escaped check(): {res.exception!r} at {fileline}", None))
     grown = _peak_rss_kb() - peak0
+    if grown > (256 << 10):
+        _give_memory_back()
     if grown > PEAK_GROWTH_LIMIT_KB:
         found.append(("memory|check-grew-peak-rss-beyond-limit", f"[{config}] the check raised the peak resident set of the process by {grown >> 10} MiB "
                       f"(limit {PEAK_GROWTH_LIMIT_KB >> 10} MiB; address space limited to {MEMORY_LIMIT_BYTES >> 20} MiB)", None))
